@@ -228,7 +228,11 @@ type dconn struct {
 	done chan struct{}
 }
 
-func (d *dconn) bytes() []byte { d.mu.Lock(); defer d.mu.Unlock(); return append([]byte(nil), d.data...) }
+func (d *dconn) bytes() []byte {
+	d.mu.Lock()
+	defer d.mu.Unlock()
+	return append([]byte(nil), d.data...)
+}
 
 // SPDaemon is a scripted shared-port daemon: it accepts TCP connections on the IPv4 and
 // (if available) IPv6 loopback and records what arrives until the client hangs up.
@@ -314,7 +318,11 @@ func (d *SPDaemon) Close() {
 	d.mu.Unlock()
 }
 
-func (d *SPDaemon) snapshot() []*dconn { d.mu.Lock(); defer d.mu.Unlock(); return append([]*dconn(nil), d.conns...) }
+func (d *SPDaemon) snapshot() []*dconn {
+	d.mu.Lock()
+	defer d.mu.Unlock()
+	return append([]*dconn(nil), d.conns...)
+}
 
 // ---------------------------------------------------------------- executing a route
 
